@@ -32,6 +32,8 @@ impl SwiftField for Field23 {
     where
         Self: Sized,
     {
+        super::swift_utils::require_ascii(input, "Field 23")?;
+
         if input.len() < 4 {
             // Minimum: 3 char function code + 1 char reference
             return Err(ParseError::InvalidFormat {
@@ -148,6 +150,8 @@ impl SwiftField for Field23B {
     where
         Self: Sized,
     {
+        super::swift_utils::require_ascii(input, "Field 23B")?;
+
         // Must be exactly 4 characters
         let instruction_code = parse_exact_length(input, 4, "Field 23B instruction code")?;
 
@@ -205,6 +209,8 @@ impl SwiftField for Field23E {
     where
         Self: Sized,
     {
+        super::swift_utils::require_ascii(input, "Field 23E")?;
+
         if input.len() < 4 {
             return Err(ParseError::InvalidFormat {
                 message: format!(
